@@ -64,7 +64,6 @@ def fact_sim_isclose_sites():
             and f.value.id == "np"
             and len(n.args) == 2
             and isinstance(n.args[0], ast.Name)
-            and n.args[0].id in ("prob0", "prob1")
             and isinstance(n.args[1], ast.Constant)
             and n.args[1].value == 0
             and not isinstance(n.args[1].value, bool)
